@@ -577,7 +577,12 @@ def module_case(rnd, cid, auto=None):
             body.append(J.Macro("outer", ["loc"], [], site))
             body.append(J.Out(J.Call(N("outer"), [C(6)])))
         elif r < 0.7:
-            body.append(J.If([N("c")], [site]))
+            # every statement container: if body, elif branch, else branch, for-else
+            k = rnd.random()
+            if k < 0.35: body.append(J.If([N("c")], [site]))
+            elif k < 0.6: body.append(J.If([N("c"), J.Not(N("c"))], [[J.Text("-")], site]))
+            elif k < 0.8: body.append(J.If([N("c")], [[J.Text("-")]], site))
+            else: body.append(J.For(J.TName("i"), J.List([]), [J.Text("-")], site))
         else:
             body.extend(site)
     if rnd.random() < 0.3:
@@ -935,13 +940,31 @@ def fault_base_case(rnd, cid):
         else:
             body.extend(u)
         body.append(J.Text("|"))
+    auto = rnd.random() < 0.3
+    if rnd.random() < 0.3:
+        # macros of an imported template (its module and eval context are cached by the engine): data is called inside
+        # an autoescape block of the other mode, then other macros of the module are used - also in later renders
+        opp = C(not auto)
+        tpls["lib"] = J.template([
+            J.Macro("inner", ["a"], [], [J.Text("<i>"), J.Out(N("a"))]),
+            J.Macro("wrap", ["a"], [], [J.Out(J.Call(N("inner"), [N("a")]))]),
+            J.Macro("run", ["f"], [], [J.Autoescape(opp, [J.Out(J.Call(N("f"), [C(1)])), J.Out(J.Call(N("inner"), [J.Call(N("f"), [C(2)])]))]),
+                                       J.Out(J.Call(N("wrap"), [C("<w>")]))])], auto)
+        body += [J.Import(C("lib"), "L"), J.Out(J.Call(J.Getattr(N("L"), "run"), [N("f1")])), J.Text("~"),
+                 J.Out(J.Call(J.Getattr(N("L"), "wrap"), [C("<m>")])), J.Text("|")]
+    if rnd.random() < 0.25:
+        body.append(J.Autoescape(C(not auto), unit() + [J.Macro("am", [], [], [J.Text("<am>")]), J.Out(J.Call(N("am")))]))
+        body.append(J.Text("|"))
     body.append(J.Text("]"))
     # de-duplicate block / macro names
     seen = 0
     for n in J.walk(body):
         if n.get("k") == "block":
             seen += 1; n["name"] = f"b{seen}"
-    tpls["main"] = J.template(body, rnd.random() < 0.3)
+    for tn in list(tpls):
+        if tn != "lib":
+            tpls[tn] = J.template(tpls[tn]["body"], auto)
+    tpls["main"] = J.template(body, auto)
     data = {"f1": J.vfn("f1", "arg0", J.vint(0)), "f2": J.vfn("f2", "const", J.vint(5)),
             "f3": J.vfn("f3", "const", J.vlist([J.vint(1), J.vint(2)])), "f4": J.vfn("f4", "stopiter"),
             "it": J.vlist([J.vint(4), J.vint(5), J.vint(6)]), "l1": J.vlist([J.vint(7)]), "o1": J.vobj("o1")}
